@@ -143,6 +143,8 @@ def jobs(tier):
         mk('C07', 'fw/evict', S.fw_evict(), witnesses=W),
         mk('C07', 'fw/chain3/timeout', S.forward_chain(3, topo='chain', timeout='1/4'), witnesses=W),
         mk('C07', 'fw/deep4', S.fw_deep4(), witnesses=W),
+        mk('C07', 'fw/same_names', S.fw_same_names(), witnesses=W),
+        mk('C07', 'fw/idle_then_stop', S.fw_idle_then_stop(), witnesses=W),
         mk('C07', 'fw/evict/BADC', S.fw_evict(('B', 'A', 'D', 'C')), witnesses=W),
     ]
     if tier == 'thorough':
